@@ -14,6 +14,7 @@ misbehaving has the appointment recorded, and no later event except abandoning t
 removes it.
 -/
 import TeosVerif.Lemmas.Plugin
+import TeosVerif.Gen.PluginCalls
 import TeosVerif.Lemmas.Tidy
 
 namespace Teos.C05
@@ -472,5 +473,19 @@ theorem exactly_one_at_stable_points (evs : List Ev) :
       · exact absurd h hR
       · exact absurd h hPP
       · exact ⟨hR, hPP, h⟩
+
+/-- **record_call_sites_are_the_modelled_ones** (tie to the source, regenerated on every run): appointments
+are recorded as pending only by the notification handler (three places: connection/unparsable reply,
+subscription error, tower not reachable), as invalid by the handler and by `Retrier::run`, as accepted
+by the same two; a pending record is removed only by `Retrier::run` (after the receipt or the invalid
+record has been written: twice); a tower's data is dropped only by `abandon_tower`. -/
+theorem record_call_sites_are_the_modelled_ones :
+    Gen.PluginCalls.addPending = [("main", "on_commitment_revocation", ""), ("main", "on_commitment_revocation", ""),
+      ("main", "on_commitment_revocation", "")] ∧
+    Gen.PluginCalls.addInvalid = [("main", "on_commitment_revocation", ""), ("retrier", "run", "")] ∧
+    Gen.PluginCalls.addReceipt = [("main", "on_commitment_revocation", ""), ("retrier", "run", "")] ∧
+    Gen.PluginCalls.removePending = [("retrier", "run", ""), ("retrier", "run", "")] ∧
+    Gen.PluginCalls.removeTower = [("main", "abandon_tower", "")] := by
+  decide
 
 end Teos.C05
